@@ -1,6 +1,6 @@
 (* C03 - Rows are split into blocks by first-cell markers: in order, none lost.
    Only statements here; every proof is one [exact] of a lemma from Proofs/. *)
-From PdV Require Import Segment SegmentProofs MarkerProofs.
+From PdV Require Import Segment SegmentProofs MarkerProofs Text TextLossless.
 
 (* Block types, origin rows and the kinds of the rows in each block are a function of the
    sequence of first-cell kinds alone (for every row type and every classifier). *)
@@ -87,3 +87,15 @@ Example C03_example :
            [CStr (n [98; 58]%N)] ])                      (* b:     -> BLANK     row 7 *)
   = [(BMeta, 0, 1); (BTable, 2, 2); (BDir, 4, 1); (BTempl, 5, 1); (BBlank, 6, 1); (BBlank, 7, 1)]%nat.
 Proof. vm_compute. reflexivity. Qed.
+
+(* Below the rows: nothing is lost by the text layer either.  The cells of a line, re-joined with
+   the separator, are the line; the lines of a text, each followed by a line feed, are the text
+   (plus one line feed when the text did not end in one). *)
+Theorem C03_cells_lossless : forall sep s, join [sep] (split_on sep s) = s.
+Proof. exact join_split. Qed.
+Print Assumptions C03_cells_lossless.
+
+Theorem C03_lines_lossless :
+  forall s, flat_map (fun l => l ++ [10%N]) (lines s) = s \/ flat_map (fun l => l ++ [10%N]) (lines s) = s ++ [10%N].
+Proof. exact lines_lossless. Qed.
+Print Assumptions C03_lines_lossless.
